@@ -1,5 +1,6 @@
 import UmModel.Migration
 import UmProofs.MigrationDefs
+import UmProofs.MigrationFinal
 /-!
 # C03 — Live slot migration neither loses, duplicates nor resurrects data
 
@@ -9,9 +10,13 @@ abstract register `logical s = dst <|> src`, every other step leaves the abstrac
 and a quiescent state after the commit has `src = none` (so the register content lives exactly
 once, on the destination).
 
-This file, stage 1: the command classification the pull path relies on, and the two executions
-of the model — both reproduced on the implementation with the gate scheduler, findings F03a and
-F03b — that falsify the statement at full strength.
+This file: the command classification the pull path relies on; the two executions of the model —
+both reproduced on the implementation with the gate scheduler, findings F03a and F03b — that
+falsify the statement at full strength; and `C03_register_partial`: under the two hypotheses that
+exclude exactly these findings (`GoodStep`) the invariant `MigInv` (`UmProofs/MigrationInv.lean`)
+is inductive and the statement holds for the full model: slow path included, any number of backend
+connections (in-flight commands of different sends are unordered), both redirect modes, any number
+of concurrent client operations, spurious slot-mutex contention.
 -/
 namespace Um.Mig.C03
 open Um Um.Mig
@@ -131,5 +136,59 @@ example : ∃ s, runLabels i5 goodTrace = some s ∧ s.src = none ∧ s.dst = no
     s.crit = none ∧ s.srcTask = false ∧ s.dstTask = false :=
   ⟨_, (Option.some_get good_runs).symm, by decide +kernel, by decide +kernel, by decide +kernel,
     by decide +kernel, by decide +kernel, by decide +kernel⟩
+
+/-! ## the partial theorem -/
+
+/-- the invariant holds in every state reachable by good steps -/
+theorem C03_invariant (v0 : Option Val) (a : Bool) {s : Sys} (h : ReachG (Sys.init v0 a) s) : MigInv s :=
+  miginv_reachG (miginv_init v0 a) h
+
+/-- **C03 (partial: hypotheses `GoodStep` = no F03a command, no F03b commit)**: every step of every
+execution is a refinement step of the atomic register `logical`: the execution of a client
+command — which lies between its invocation and its response — answers and updates the register
+exactly as the sequential specification `Cmd.apply`; no other step (scan batches, pulls, pushes,
+fast and slow path, handshake, commit, redirects) changes the register.  Hence the acknowledged
+history is linearizable: a completed write/delete is seen by every later read, nothing overwritten
+or deleted reappears. -/
+theorem C03_register_partial (v0 : Option Val) (a : Bool) {s s' : Sys} {l : Label}
+    (h : ReachG (Sys.init v0 a) s) (hg : GoodStep s l) (hs : step? s l = some s') :
+    RegisterStep s l s' :=
+  (inv_step (C03_invariant v0 a h) hg hs).2
+
+/-- the same, for a whole trace: the client-command executions answer like the atomic register
+started at the initial source value, and the final abstract register is what that register holds -/
+theorem C03_register_trace_partial (v0 : Option Val) (a : Bool) (ls : List Label) {s' : Sys}
+    (hg : runGood (Sys.init v0 a) ls) (hr : runLabels (Sys.init v0 a) ls = some s') :
+    specOk v0 ls ∧ logical s' = specRun v0 ls := by
+  have h := run_refines ls (miginv_init v0 a) hg hr
+  have e : logical (Sys.init v0 a) = v0 := by simp [logical, Sys.init]
+  rw [e] at h
+  exact h.2
+
+/-- **end state**: at quiescence after both commits the source holds nothing and the destination
+holds exactly the register content -/
+theorem C03_end_state_partial (v0 : Option Val) (a : Bool) {s : Sys}
+    (h : ReachG (Sys.init v0 a) s) (hq : Quiescent s) : s.src = none ∧ s.dst = logical s :=
+  quiescent_src_none (C03_invariant v0 a h) hq
+
+/-- … and together: the destination holds the value the atomic register ends with -/
+theorem C03_end_value_partial (v0 : Option Val) (a : Bool) (ls : List Label) {s' : Sys}
+    (hr : runLabelsG (Sys.init v0 a) ls = some s') (hq : Quiescent s') :
+    s'.src = none ∧ s'.dst = specRun v0 ls := by
+  obtain ⟨h1, h2, h3⟩ := runLabelsG_spec ls hr
+  have hq' := C03_end_state_partial v0 a h3 hq
+  exact ⟨hq'.1, by rw [hq'.2]; exact (C03_register_trace_partial v0 a ls h2 h1).2⟩
+
+/-- non-vacuity: `goodTrace` satisfies the hypotheses, ends quiescent, and the theorem pins its
+final content (SET 7 then DEL: nothing left) -/
+theorem good_runsG : (runLabelsG i5 goodTrace).isSome = true := by decide +kernel
+
+example : ∃ s, runLabelsG i5 goodTrace = some s ∧ Quiescent s ∧ s.src = none ∧ s.dst = none := by
+  refine ⟨_, (Option.some_get good_runsG).symm, ?_, by decide +kernel, by decide +kernel⟩
+  refine ⟨by decide +kernel, by decide +kernel, by decide +kernel, by decide +kernel, by decide +kernel, by decide +kernel⟩
+
+/-- the two finding traces violate exactly one hypothesis each -/
+theorem f03a_not_good : runLabelsG i5 f03aTrace = none := by decide +kernel
+theorem f03b_not_good : runLabelsG i5 f03bTrace = none := by decide +kernel
 
 end Um.Mig.C03
